@@ -223,9 +223,20 @@ def run_impl(ctx, cases, lines):
         env["TZ"] = TZS[tz]
         hl = [vc.show([cases[i][0], cases[i][1], cases[i][2], cases[i][3], cases[i][4], treqs[i]]) for i in idx]
         # a parser bug can loop forever while allocating: cap the child's address space
-        # and wall clock so that such a case is reported as abort/hang, not as a dead machine
-        cmd = ["/bin/bash", "-c", "ulimit -v 4000000; exec \"$0\"", exe]
-        got = vc.run_lines(cmd, hl, timeout_per_batch=240, env=env)
+        # and wall clock, run in growing chunks and give up on the group after a few
+        # aborts/hangs (the remaining cases are reported as aborted), so that such a
+        # tree is reported as a violation quickly instead of killing the machine
+        cmd = ["/bin/bash", "-c", "ulimit -v 1500000; exec \"$0\"", exe]
+        got, pos, size, crashes = [], 0, 25, 0
+        while pos < len(hl):
+            if crashes > 3:
+                got.extend(["xabort"] * (len(hl) - pos))
+                break
+            part = vc.run_lines(cmd, hl[pos:pos + size], timeout_per_batch=60 if size <= 25 else 240, env=env)
+            crashes += sum(1 for x in part if x in ("xabort", "xhang"))
+            got.extend(part)
+            pos += size
+            size = min(size * 8, 4000)
         for i, g in zip(idx, got):
             res[i] = g
     return res
